@@ -62,10 +62,37 @@ def die_with_parent() -> None:
         pass
 
 
+def limit_worker_memory() -> None:
+    """A change to the code under test that makes it eat memory must end in a MemoryError inside the worker (which the check
+    reports), never in the kernel killing the worker: multiprocessing.Pool silently loses the task of a killed worker and the
+    check would wait for it forever.  Headroom above what the worker inherited: VERIF_WORKER_MEM_GB (default 4)."""
+    try:
+        import resource
+        gb = float(os.environ.get('VERIF_WORKER_MEM_GB', '4'))
+        if gb <= 0:
+            return
+        with open('/proc/self/statm') as f:
+            vsize = int(f.read().split()[0]) * os.sysconf('SC_PAGE_SIZE')
+        lim = vsize + int(gb * (1 << 30))
+        soft, hard = resource.getrlimit(resource.RLIMIT_AS)
+        if hard != resource.RLIM_INFINITY:
+            lim = min(lim, hard)
+        if soft == resource.RLIM_INFINITY or soft > lim:
+            resource.setrlimit(resource.RLIMIT_AS, (lim, hard))
+    except Exception:
+        pass
+
+
 def _worker_init(init, initargs) -> None:
     die_with_parent()
+    limit_worker_memory()
     if init:
         init(*initargs)
+
+
+def _run_chunk(arg):
+    fn, chunk = arg
+    return [fn(x) for x in chunk]
 
 
 def pmap(fn: T.Callable, items: T.Iterable, jobs: int = 0, chunksize: int = 1, init=None, initargs=()) -> T.Iterator:
@@ -81,9 +108,21 @@ def pmap(fn: T.Callable, items: T.Iterable, jobs: int = 0, chunksize: int = 1, i
     ctx = mp.get_context('fork')
     pool = ctx.Pool(min(jobs, len(items)), initializer=_worker_init, initargs=(init, initargs))
     # No `with`: leaving a with-block through an exception calls Pool.terminate(), which can deadlock while workers are busy.
+    pids = sorted(p.pid for p in pool._pool)
     try:
-        for r in pool.imap(fn, items, chunksize):
-            yield r
+        chunksize = max(1, chunksize)
+        it = pool.imap(_run_chunk, [(fn, items[i:i + chunksize]) for i in range(0, len(items), chunksize)])
+        while True:
+            try:
+                rs = it.next(timeout=15)
+            except StopIteration:
+                break
+            except mp.TimeoutError:
+                # a worker that was killed (out of memory, a signal) takes its task with it and imap() would wait forever
+                if sorted(p.pid for p in pool._pool) != pids:
+                    raise InternalError('a worker process died (killed?); its task is lost')
+                continue
+            yield from rs
     except GeneratorExit:
         # the consumer stopped early (e.g. zip() with a shorter first argument): the workers are idle or finishing; terminate()
         # is safe here (never kill them by hand: an idle worker holds the queue's read lock, which terminate() then waits for)
@@ -93,10 +132,23 @@ def pmap(fn: T.Callable, items: T.Iterable, jobs: int = 0, chunksize: int = 1, i
         # an exception raised in a worker (or while collecting): the check is broken, never a verdict
         traceback.print_exc()
         print('INTERNAL-ERROR exception in a worker process or while collecting its results', file=sys.stderr, flush=True)
-        hard_exit(2)
+        hard_exit(_internal_exit_code())
     else:
         pool.close()
         pool.join()
+
+
+_active_check = None
+
+
+def _internal_exit_code() -> int:
+    """2 = the check is broken.  When violations not listed as known were already printed (each with its replay file) the run
+    is a failed verdict all the same: the harness giving up afterwards (the tree under test exhausting memory, say) must not
+    turn the reported violations into "no verdict"."""
+    if _active_check is not None and getattr(_active_check, 'n_viol', 0) > 0:
+        print('(violations were reported before the internal error: exit 1)', file=sys.stderr, flush=True)
+        return 1
+    return 2
 
 
 def hard_exit(code: int) -> T.NoReturn:
@@ -130,6 +182,8 @@ class Check:
         ap.add_argument('--only', default=None, help='comma list of sub-parts to run (debugging)')
         ap.add_argument('--no-evidence', action='store_true')
         self.args = ap.parse_args(argv)
+        global _active_check
+        _active_check = self
         self.pid = pid
         self.level = level
         self.tier = self.args.tier
@@ -236,7 +290,7 @@ class Check:
 
     def internal(self, msg: str) -> T.NoReturn:
         print('INTERNAL-ERROR property=%s %s' % (self.pid, msg), file=sys.stderr, flush=True)
-        hard_exit(2)
+        hard_exit(_internal_exit_code())
 
     def require(self, cond: bool, msg: str) -> None:
         """Anti-vacuity assertion: failing it is an internal error of the check, not a verdict."""
